@@ -850,6 +850,76 @@ def r6(ctx):
     aligned_blocks_rule(ctx, 'C15-R6')
 
 
+def _aligned_blocks_model(ctx, ab):
+    """Molecule.get_aligned_blocks run by the abstract interpreter on model molecules: every list of up to three half-open read blocks over the coordinates 0..6, each block
+    a read of its own or two of them the two blocks of one read with a deletion between them.  The result has to be the maximal runs of covered positions as inclusive
+    (first, last) pairs.  (ok, why, witness) or None outside the interpreted subset."""
+    import itertools
+    from ..consteval import module_scope, Evaluator, Instance, Unfoldable, Raised
+    try:
+        env = module_scope(ctx.ix, MOLECULE)
+        cls = env['Molecule']
+        coords = range(0, 7)
+        blocks = [(a, b) for a in coords for b in coords if a < b]
+        n = 0
+        for k in (0, 1, 2, 3):
+            for combo in itertools.product(blocks, repeat=k):
+                if k == 3 and not (combo[0] <= combo[1]):
+                    continue
+                groupings = [[[b] for b in combo]]
+                if k >= 2 and combo[0][1] < combo[1][0]:
+                    groupings.append([[combo[0], combo[1]]] + [[b] for b in combo[2:]])      # one read with a deletion
+                for reads_blocks in groupings:
+                    n += 1
+                    reads = [Instance(attrs={'blocks': list(bl), 'is_unmapped': False}) for bl in reads_blocks]
+
+                    def hook(ev, call, env_, reads=reads):
+                        d = dotted(call.func) or ''
+                        if d == 'self.iter_reads':
+                            return list(reads)
+                        if isinstance(call.func, ast.Attribute) and call.func.attr in ('get_blocks', 'get_aligned_pairs'):
+                            recv = ev.ev(call.func.value, env_)
+                            if isinstance(recv, Instance) and 'blocks' in recv.attrs:
+                                bl = recv.attrs['blocks']
+                                if call.func.attr == 'get_blocks':
+                                    return [tuple(b) for b in bl]
+                                kw = {k_.arg: ev.ev(k_.value, env_) for k_ in call.keywords if k_.arg}
+                                out, q = [], 0
+                                last = None
+                                for a, b in bl:
+                                    if last is not None and not kw.get('matches_only'):
+                                        out.extend((None, r_) + ((('N'),) if kw.get('with_seq') else ()) for r_ in range(last, a))
+                                    for r_ in range(a, b):
+                                        out.append((q, r_) + (('A',) if kw.get('with_seq') else ()))
+                                        q += 1
+                                    last = b
+                                return out
+                        return NotImplemented
+                    mol = Instance(cls, attrs={'fragments': [], 'saved_base_obs': None, 'chromosome': 'chr1'})
+                    e = dict(env)
+                    e['mol'] = mol
+                    got = Evaluator(e, budget=100000, call_hook=hook).ev(ast.parse('mol.get_aligned_blocks()', mode='eval').body, e)
+                    got = [tuple(x) for x in list(got)]
+                    pos = sorted({p_ for bl in reads_blocks for a, b in bl for p_ in range(a, b)})
+                    want = []
+                    for p_ in pos:
+                        if want and want[-1][1] == p_ - 1:
+                            want[-1] = (want[-1][0], p_)
+                        else:
+                            want.append((p_, p_))
+                    if got != want:
+                        return (False, f'reads with the aligned blocks {reads_blocks} (half-open) give {got}, the reads cover {want}: ' +
+                                ('a block nested in an earlier, longer block cuts the merged block short' if got and want and len(got) == len(want) and got[0][1] < want[0][1] else 'the blocks are not the covered runs'),
+                                {'aligned blocks per read (half-open)': reads_blocks, 'returned': got, 'covered runs (inclusive)': want})
+        ctx.counters['interpreted_cases'] = ctx.counters.get('interpreted_cases', 0) + n
+        return (True, f'interpreted on {n} model molecules (up to three read blocks over coordinates 0..6, reads with a deletion included): the blocks are the maximal runs of covered positions', None)
+    except (Unfoldable, Raised):
+        return None
+    except Exception:
+        return None
+
+
+
 def aligned_blocks_rule(ctx, rid):
     # covered reference positions are the aligned (matched) positions of the reads, not their reference spans (which include deletions / skips)
     ab = ctx.fn(MOLECULE, 'Molecule.get_aligned_blocks')
@@ -864,6 +934,12 @@ def aligned_blocks_rule(ctx, rid):
             and len(pair_gen[0].target.elts) >= 2 and src(c_.elt) == src(pair_gen[0].target.elts[1]) and not any(g_.ifs for g_ in gens)
         whyb = 'covered positions = reference positions of get_aligned_pairs(matches_only=True) of every read' if okb else \
             f'covered positions `{src(c_)[:90]}` are not the matched reference positions of every read (a reference span also covers deleted / skipped bases)'
+    if not okb:
+        mres = _aligned_blocks_model(ctx, ab)
+        if mres is not None:
+            ctx.emit(rid, mres[0], MOLECULE, ab, 'get_aligned_blocks: ' + mres[1], key='aligned-blocks-from-matches', witness=mres[2],
+                     what='get_aligned_blocks: merged blocks differ from the positions the reads cover')
+            return
     if not okb and len(comps) >= 1:
         merged_form = _aligned_blocks_by_merging(ctx, ab, comps)
         if merged_form is not None:
